@@ -1,17 +1,19 @@
-use dashu_ratio::RBig;
-use dashu_int::{IBig, UBig};
+use dashu_float::{round::mode, Context, FBig, Repr};
+use dashu_int::IBig;
+fn show<R: dashu_float::round::Round>(name: &str) {
+    for (s, e) in [(-5i64, -20isize), (5, -20), (-5, -3), (5, -3)] {
+        let ctx = Context::<R>::new(6);
+        let x = Repr::<10>::new(IBig::from(s), e);
+        let r = ctx.exp(&x);
+        let r2 = ctx.exp_m1(&x);
+        println!("{:9} exp({}e{}) = {:?}   exp_m1 = {:?}", name, s, e, r.map(|v: FBig<R, 10>| v.to_string()), r2.map(|v| v.to_string()));
+    }
+}
 fn main() {
-    let a = RBig::from(IBig::from(10));
-    let b = RBig::from(IBig::from(20));
-    println!("simplest_in(10,20) = {}", RBig::simplest_in(a, b));
-    let a = RBig::from(IBig::from(1000000));
-    let b = RBig::from(IBig::from(1000002));
-    println!("simplest_in(1000000,1000002) = {}", RBig::simplest_in(a, b));
-    let a = RBig::from_parts(IBig::from(21), UBig::from(2u8));
-    let b = RBig::from_parts(IBig::from(23), UBig::from(2u8));
-    println!("simplest_in(21/2,23/2) = {}", RBig::simplest_in(a, b));
-    println!("simplest_from_f32(-8.0716796e29) = {:?}", RBig::simplest_from_f32(f32::from_bits(0xf123019b)));
-    println!("simplest_from_f32(3e10) = {:?}", RBig::simplest_from_f32(3e10));
-    println!("simplest_from_f32(16777218) = {:?}", RBig::simplest_from_f32(16777218.0));
-    println!("simplest_from_f32(33554436) = {:?}", RBig::simplest_from_f32(33554436.0));
+    show::<mode::Zero>("Zero");
+    show::<mode::Away>("Away");
+    show::<mode::Up>("Up");
+    show::<mode::Down>("Down");
+    show::<mode::HalfEven>("HalfEven");
+    show::<mode::HalfAway>("HalfAway");
 }
